@@ -223,7 +223,7 @@ def gen_cfg(rng, nops=40):
     scale_l = 10 ** rng.randint(0, 24)
     scale_a = 10 ** rng.randint(0, 24)
     exp = scale_a * 10 ** dec // scale_l
-    minp = rng.choice([0, 0, 1, exp // 10, exp // 2, exp, exp, exp * 3])
+    minp = rng.choice([0, 0, 0, 1, exp // 10, exp // 2, exp // 2, exp, exp, exp * 3])
     bad = rng.random()
     if bad < 0.02:
         pmin, pmax = pmax + 1, pmax
@@ -293,6 +293,8 @@ def gen_deposit(rng, w):
             return ["Deposit", c, 1, log_amount(rng, cfg["scale_l"] * 10) + rng.choice([0, cfg["scale_l"]])]
         return ["Deposit", c, 2, log_amount(rng, cfg["scale_a"] * 10)]
     tok = 2 if rng.random() < 0.6 else 1
+    if minp > 0 and 0 <= s["price"] < minp and rng.random() < 0.7:
+        tok = 2          # below the floor nothing but accepted-token deposits can succeed
     k = rng.random()
     if tok == 1 and minp > 0 and ab > 0 and k < 0.45:
         # launched deposit around the price floor: largest a with ab*prec // (lb+a) >= minp
@@ -300,7 +302,7 @@ def gen_deposit(rng, w):
         a = edge + rng.choice([-1, 0, 0, 1, 1, 2])
         if a > 0:
             return ["Deposit", c, 1, a]
-    if tok == 1 and ab > 0 and k < 0.5:
+    if tok == 1 and ab > 0 and 0.45 <= k < 0.47:
         # price rounds to zero
         return ["Deposit", c, 1, max(1, ab * prec - lb + rng.choice([0, 1, 1, 5]))]
     if k < 0.75:
@@ -391,6 +393,10 @@ def gen_op(rng, w):
     if r < 0.10:
         return gen_invalid(rng, w)
     op = None
+    below = cfg["minp"] > 0 and s["lb"] > 0 and 0 <= s["price"] < cfg["minp"]
+    if below and ph in (1, 2, 3) and rng.random() < 0.75:
+        # every withdrawal fails below the floor: raise the price (or let time pass)
+        return gen_deposit(rng, w) if ph in (1, 2) else gen_tick(rng, w)
     if ph in (1, 2):
         if s["lb"] == 0 or r < 0.55:
             op = gen_deposit(rng, w)
